@@ -424,6 +424,24 @@ def eng1(ctx: Ctx) -> None:
                            construct=f"reset before {norm(s)[:60]}")
     if n_prog < 2:
         raise AnalysisError("ENG-1: progress branches not found")
+    # ... and nowhere else inside the loop: a reset that is not followed by handing an item to the
+    # elaboration queue lets an unwrap cycle through that branch run forever
+    for s in ast.walk(loop):
+        if isinstance(s, ast.Assign) and norm(s) == f"{cnt} = 0":
+            blk = _block_of(mod, s)
+            after = [norm(x) for x in blk[blk.index(s) + 1:]]
+            if any(a.startswith("to_elaborate.append(") for a in after):
+                continue
+            ctx.R.fail("ENG-1", mod, s, f"`{cnt}` is reset in a branch that does not record progress (nothing is handed to the elaboration queue there): "
+                       "an unwrapping cycle that passes through this branch is never detected and extract() hangs",
+                       construct=f"{cnt} = 0 without progress in: {norm(_enclosing_if_test(mod, s))[:100]}")
+
+
+def _enclosing_if_test(mod: Mod, st: ast.AST) -> ast.AST:
+    for a in mod.ancestors(st):
+        if isinstance(a, (ast.If, ast.While)):
+            return a.test
+    return st
 
 
 def _block_of(mod: Mod, st: ast.stmt) -> List[ast.stmt]:
@@ -674,6 +692,11 @@ def ctx5(ctx: Ctx) -> None:
             # frame = _extract.extract_outermost(mgr.gen)
             src = [s for s in ast.walk(fn) if isinstance(s, ast.Assign) and norm(s.targets[0]) == a0]
             if len(src) == 1 and isinstance(src[0].value, ast.Call) and ctx.P.resolve_call(mod, src[0].value).is_pkg("_extract", "extract_outermost") \
+                    and norm(src[0].value.args[0]).endswith(".gen") and (len(src[0].value.args) > 1 or src[0].value.keywords):
+                ctx.R.fail("CTX-5", mod, src[0], "on the exiting path the frame handed to unwrap_context_generator is extracted with overridden options: "
+                           "the hook sees a different Frame (e.g. no contexts) than on the non-exiting path, where it gets inner_stack.frames[0]",
+                           construct=f"exiting path: {norm(src[0].value)}")
+            elif len(src) == 1 and isinstance(src[0].value, ast.Call) and ctx.P.resolve_call(mod, src[0].value).is_pkg("_extract", "extract_outermost") \
                     and norm(src[0].value.args[0]).endswith(".gen"):
                 ctx.R.ok("CTX-5", "exiting path: extract_outermost(mgr.gen)")
             else:
@@ -697,7 +720,7 @@ def ctx5(ctx: Ctx) -> None:
 
 
 # ===================================================================== C13
-def opt_rules(ctx: Ctx) -> None:
+def opt1(ctx: Ctx) -> None:
     mod = _engine_mod(ctx)
     cls = mod.fn("ExtractOptions")
     ctx.R.saw(mod, "ExtractOptions.push")
@@ -719,16 +742,36 @@ def opt_rules(ctx: Ctx) -> None:
         ctx.R.ok("OPT-1", "current_options is the only instance, created at module level")
     else:
         ctx.R.fail("OPT-1", mod, cls, f"ExtractOptions must have exactly one module-level instance (current_options); found {len(inst)} constructions", construct="current_options = ExtractOptions()")
+    # OPT-1b: a class-level attribute of a threading.local subclass is shared by ALL threads; only
+    # immutable defaults are per-thread-safe (a list/dict/set/object there is one object for everybody)
+    n_attr = 0
+    for s in cls.body:
+        if isinstance(s, (ast.AnnAssign, ast.Assign)) and getattr(s, "value", None) is not None:
+            n_attr += 1
+            v = s.value
+            tgt = norm(s.target if isinstance(s, ast.AnnAssign) else s.targets[0])
+            while isinstance(v, ast.Call) and norm(v.func) in ("cast", "typing.cast") and len(v.args) == 2:
+                v = v.args[1]
+            if isinstance(v, ast.Constant):
+                if v.value is None:
+                    ctx.R.ok("OPT-1", f"class-level default {tgt} = None (unset, immutable)")
+                else:
+                    ctx.R.fail("OPT-1", mod, s, f"the class-level default of `{tgt}` must be None ('outside any extraction'), found {v.value!r}: extract_child could not tell that it is outside an extraction")
+            else:
+                ctx.R.fail("OPT-1", mod, s, f"`{tgt}` is a class-level attribute of a threading.local subclass bound to a mutable object ({norm(v)[:40]}): "
+                           "class attributes are shared by every thread, so option state kept in it leaks between concurrent extractions on different threads",
+                           construct=f"class attribute {tgt} = {norm(v)[:60]} on threading.local subclass")
+    if n_attr == 0:
+        raise AnalysisError("OPT-1: ExtractOptions has no class-level defaults any more")
+
+
+def opt2(ctx: Ctx) -> None:
+    mod = _engine_mod(ctx)
+    # OPT-2 push
+    cls = mod.fn("ExtractOptions")
     fields = [norm(s.target) for s in cls.body if isinstance(s, ast.AnnAssign)]
     if set(fields) != {"with_contexts", "recurse_child_tasks"}:
-        raise AnalysisError(f"OPT: option fields changed: {fields}")
-    for s in cls.body:
-        if isinstance(s, ast.AnnAssign):
-            if s.value is None or "None" not in norm(s.value):
-                ctx.R.fail("OPT-1", mod, s, "the class-level default of an option must be None ('outside any extraction')")
-            else:
-                ctx.R.ok("OPT-1", f"default {norm(s.target)} = None (unset)")
-    # OPT-2 push
+        raise AnalysisError(f"OPT-2: option fields changed: {fields}")
     push = mod.fn("ExtractOptions.push")
     decs = [norm(d) for d in push.decorator_list]
     if "contextmanager" not in decs and "contextlib.contextmanager" not in decs:
@@ -759,6 +802,10 @@ def opt_rules(ctx: Ctx) -> None:
     elif not any(f.rule == "OPT-2" for f in ctx.R.findings):
         ctx.R.fail("OPT-2", mod, push, "push must save both option fields before overwriting them and restore the saved pair in a `finally` enclosing the yield: "
                    "otherwise a nested extract that ends by exception leaves the inner options in force", construct="save / try: yield / finally: restore")
+
+
+def opt3(ctx: Ctx) -> None:
+    mod = _engine_mod(ctx)
     # OPT-3 single writer
     for m in ctx.P.analysed_mods():
         for n in ast.walk(m.tree):
@@ -770,6 +817,10 @@ def opt_rules(ctx: Ctx) -> None:
             if isinstance(n, ast.Call) and norm(n.func) in ("setattr", "delattr") and n.args and "current_options" in norm(n.args[0]):
                 ctx.R.fail("OPT-3", m, n, "option field written through setattr")
     ctx.R.ok("OPT-3", "no store to with_contexts / recurse_child_tasks outside ExtractOptions.push", f"{len(ctx.P.analysed_mods())} modules scanned")
+
+
+def opt4(ctx: Ctx) -> None:
+    mod = _engine_mod(ctx)
     # OPT-4 entry points
     defaults = None
     for q in ("extract", "extract_outermost", "extract_since", "extract_until"):
@@ -814,6 +865,11 @@ def opt_rules(ctx: Ctx) -> None:
                 ctx.R.ok("OPT-4", f"{q}: forwards both options to extract")
             else:
                 ctx.R.fail("OPT-4", mod, c, f"{q} must forward both options unchanged to extract; found {kws}", construct=f"{q}: extract(**{kws})")
+    ctx.R.expect_min("OPT-4", 8)
+
+
+def opt56(ctx: Ctx) -> None:
+    mod = _engine_mod(ctx)
     # OPT-5 / OPT-6 extract_child
     fn = mod.fn("extract_child")
     body = [s for s in fn.body if not (isinstance(s, ast.Expr) and isinstance(s.value, ast.Constant))]
@@ -840,10 +896,14 @@ def opt_rules(ctx: Ctx) -> None:
         ctx.R.ok("OPT-6", "stub iff for_task and not recurse_child_tasks: Stack(root=stackitem, frames=[]) before the iterator is created")
     else:
         ctx.R.fail("OPT-6", mod, g1, "extract_child(for_task=True) must return a frameless stub carrying only root exactly when recursion was not requested", construct="for_task stub")
+
+
+def opt7(ctx: Ctx) -> None:
+    mod = _engine_mod(ctx)
     # OPT-7 with_contexts only governs frame.contexts
+    from .opcodes import guards_of
     it = mod.fn("extract_iter")
     stores = [n for n in ast.walk(it) if isinstance(n, ast.Attribute) and n.attr == "contexts" and isinstance(n.ctx, ast.Store)]
-    from .opcodes import guards_of
     if not stores:
         raise AnalysisError("OPT-7: store to frame.contexts vanished")
     for s in stores:
@@ -870,8 +930,6 @@ def opt_rules(ctx: Ctx) -> None:
             ctx.R.fail("OPT-7", mod, r, f"the with_contexts region changes engine state {bad}: the frame series would depend on the flag", construct=f"with_contexts region writes {bad}")
         else:
             ctx.R.ok("OPT-7", "the with_contexts region writes only frame.contexts / save_errors: the frame series cannot depend on the flag through the engine")
-    # the assert at the top of extract_iter
-    ctx.R.expect_min("OPT-4", 8)
 
 
 # ===================================================================== C16
@@ -983,5 +1041,5 @@ def ori_rules(ctx: Ctx) -> None:
 C05 = [cont1_2, cont3, cont4, cont5, def1, contw]
 C10 = [eng1, eng2, yf1, cont3]
 C11 = [ctx_rules, ctx5]
-C13 = [opt_rules]
+C13 = [opt1, opt2, opt3, opt4, opt56, opt7, ctx_rules]
 C16 = [ori_rules]
